@@ -276,7 +276,9 @@ func c16Run(e *Env, p *c16Plan) {
 				}
 			case isOwn:
 				e.Probe("own-response")
-				if total > timeout+time.Millisecond {
+				// (a wrapper that is slow to look at its select may find the handler done and the
+				// timer expired, and may then legitimately pick the handler's result)
+				if total > timeout+holdBudget+time.Millisecond {
 					e.Violation("late-response-sent", "request %s: handler needs %v > timeout %v, yet its own output was sent", o.id, total, timeout)
 					return
 				}
